@@ -82,7 +82,7 @@ type Env struct {
 	Fn       *ssa.Function
 	cache    map[ssa.Value]Poly
 	busy     map[ssa.Value]bool
-	symRoots map[string][]ssa.Value // symbol -> values whose definition point decides loop variance
+	symRoots map[string][]ssa.Value  // symbol -> values whose definition point decides loop variance
 	stores   map[ssa.Value][]StoreAt // root (alloc or pointer value) -> stores below it
 	sliceSt  []StoreAt               // stores into slice elements
 	escapes  map[*ssa.Alloc][]Esc
